@@ -72,3 +72,61 @@ Theorem C03_nonvacuous_utf8 :
     match parse_ex (fun _ => 0) tk [120;34] with PR t' (Some v) => v = JStr [195;169;120] /\ err t' = TE_success | _ => False end.
 Proof. eexists _, _. split; [reflexivity|]. split; [vm_compute; reflexivity|]. vm_compute. split; reflexivity. Qed.
 Print Assumptions C03_nonvacuous_utf8.
+
+(* ---- streams of concatenated documents, resumed at the reported end position (TokStream.v) ----
+   A pending high surrogate is the only thing a finished document could hand to the next one; it is
+   0 outside the three states that follow a \uD8xx escape (hs_ok: kept by every call from a new or
+   reset parser).  Hence a call that returns a value (explicit-length buffer, no NUL byte in it)
+   leaves the parser with one fresh level, no pending surrogate and status success ... *)
+From JC Require Import TokTotal TokDead2 TokStream.
+
+Theorem C03_success_leaves_new : forall sb t a t' v,
+  wf_tok t -> hs_ok t -> Forall (fun b => b <> 0) a ->
+  parse_ex sb t a = PR t' (Some v) ->
+  stack t' = [fresh_level] /\ high_surrogate t' = 0 /\ err t' = TE_success.
+Proof. exact success_leaves_new. Qed.
+Print Assumptions C03_success_leaves_new.
+
+(* ... so whatever is parsed next (the rest of the stream from the reported end position) is
+   parsed exactly as by a new parser with the same depth limit and flags: value, status, end *)
+Theorem C03_after_success_as_new : forall sb t a t' v x,
+  wf_tok t -> hs_ok t -> Forall (fun b => b <> 0) a ->
+  parse_ex sb t a = PR t' (Some v) ->
+  wf_tok t' /\ hs_ok t' /\
+  match parse_ex sb (new_like t') x, parse_ex sb t' x with
+  | PR t1 r1, PR t2 r2 => r1 = r2 /\ err t1 = err t2 /\ char_offset t1 = char_offset t2
+  | PRFuel, PRFuel => True
+  | _, _ => False
+  end.
+Proof. exact after_success_as_new. Qed.
+Print Assumptions C03_after_success_as_new.
+
+(* any number of documents: resuming one parser at each reported end position yields the same
+   values and the same final status as taking a new parser for every document; each document
+   is then, by C03_chunks_independent, independent of how its bytes are split into calls.
+   (A cut that falls between the end of a document and the blanks/comment that follow it hands
+   the value over one call earlier than a single call on the whole buffer would — the first
+   call there returns the value, not "more input needed", so C03's premise does not apply.) *)
+Theorem C03_stream_resume_is_fresh : forall sb fuel t1 t2 bytes,
+  as_new t1 -> as_new t2 -> cfg0 t1 = cfg0 t2 -> Forall (fun b => b <> 0) bytes ->
+  stream sb false fuel t1 bytes = stream sb true fuel t2 bytes.
+Proof. exact stream_resume_is_fresh. Qed.
+Print Assumptions C03_stream_resume_is_fresh.
+
+(* the invariant is established by new / reset and kept by every call *)
+Theorem C03_hs_ok_kept : forall sb t a t' r,
+  wf_tok t -> hs_ok t -> Forall (fun b => b <> 0) a \/ r = None -> parse_ex sb t a = PR t' r -> hs_ok t'.
+Proof. exact parse_ex_hs. Qed.
+Print Assumptions C03_hs_ok_kept.
+Theorem C03_hs_ok_new : forall D s a v t, tok_new D s a v = Some t -> hs_ok t.
+Proof. exact hs_ok_new. Qed.
+Theorem C03_hs_ok_reset : forall t, hs_ok (tok_reset t).
+Proof. exact hs_ok_reset. Qed.
+
+(* non-vacuity: the stream  [1] "a" {"k":2}  through one resumed parser *)
+Theorem C03_stream_example :
+  exists t, tok_new 32 false false false = Some t /\ as_new t /\
+  stream (fun _ => 0) false 10 t [91;49;93;32;34;97;34;32;123;34;107;34;58;50;125] =
+    ([JArr [JInt 1]; JStr [97]; JObj [([107], JInt 2)]], TE_continue).
+Proof. eexists. split; [reflexivity|]. split; [split; reflexivity|]. vm_compute. reflexivity. Qed.
+Print Assumptions C03_stream_example.
